@@ -127,6 +127,12 @@ class SStr:
     __slots__ = ("pieces",)
     pytype = "str"
 
+    def __deepcopy__(self, memo):
+        return self  # immutable
+
+    def __copy__(self):
+        return self
+
     def __init__(self, pieces: Iterable[Any] = ()):
         out: list[Any] = []
         for p in pieces:
@@ -635,6 +641,12 @@ class SNum:
     """Polynomial with rational coefficients over named symbols (ints unless stated)."""
 
     __slots__ = ("terms", "is_float")
+
+    def __deepcopy__(self, memo):
+        return self  # immutable
+
+    def __copy__(self):
+        return self
 
     def __init__(self, terms: dict | None = None, is_float: bool = False):
         self.terms = {k: Fraction(v) for k, v in (terms or {}).items() if v != 0}
